@@ -170,12 +170,17 @@ def cleanupPass (E : Env) (repair : Bool) (which : Tag) (inner : Nat) :
 
 def opsWeight (ops : List Op) : Nat := ops.foldl (fun a x => a + x.oLen + x.nLen + 1) 0
 
-/-- `cleanup_diff_ops` -/
+/-- `cleanup_diff_ops`. Loop bounds of the model: each inner `while let` loop gets `2W+4` rounds and
+each outer pass `(W+2)²` rounds, `W = opsWeight ops`. The outer bound must be quadratic: an insertion
+that slides up, swaps over deletions and MERGES into an earlier insertion cannot slide back, so the
+outer pointer jumps back and re-walks the ops in between (found by the termination proof; witness
+family in DESIGN.md §13 — the Rust code terminates but needs ~2·m·k outer iterations there). -/
 def cleanupDiffOps (E : Env) (repair : Bool) (ops : List Op) (w : World) : Res (List Op × World) :=
-  let fuel := 2 * opsWeight ops + 4
-  match cleanupPass E repair .delete fuel fuel ops 0 w with
+  let inner := 2 * opsWeight ops + 4
+  let fuel := (opsWeight ops + 2) * (opsWeight ops + 2)
+  match cleanupPass E repair .delete inner fuel ops 0 w with
   | .error e => .error e
-  | .ok (ops, w) => cleanupPass E repair .insert fuel fuel ops 0 w
+  | .ok (ops, w) => cleanupPass E repair .insert inner fuel ops 0 w
 
 /-- `Compact<D>`: buffers every call; `replace` is the trait default (delete, then insert). -/
 def compactHook {σ} (E : Env) (repair : Bool) (h : Hook σ) : Hook (List Op × σ) where
